@@ -104,6 +104,100 @@ pub fn rand_query(r: &mut Rng) -> String {
     q
 }
 
+fn days_in_month(y: i64, m: i64) -> i64 {
+    match m {
+        1 | 3 | 5 | 7 | 8 | 10 | 12 => 31,
+        4 | 6 | 9 | 11 => 30,
+        _ => {
+            if (y % 4 == 0 && y % 100 != 0) || y % 400 == 0 {
+                29
+            } else {
+                28
+            }
+        }
+    }
+}
+
+pub fn rand_date(r: &mut Rng) -> (i64, i64, i64) {
+    let y = match r.below(4) {
+        0 => 1 + r.below(9999) as i64,
+        1 => *r.pick(&[1, 999, 1000, 1900, 2000, 2100, 9999]),
+        _ => 2000 + r.below(40) as i64,
+    };
+    let m = 1 + r.below(12) as i64;
+    let d = if r.chance(1, 4) { days_in_month(y, m) } else { 1 + r.below(days_in_month(y, m) as usize) as i64 };
+    (y, m, d)
+}
+
+/// a syntactically plausible timestamp (any of the renderings), then possibly one mutation
+pub fn rand_ts(r: &mut Rng) -> String {
+    let (y, m, d) = rand_date(r);
+    let ext_d = r.chance(1, 2);
+    let ext_t = if r.chance(1, 8) { !ext_d } else { ext_d };
+    let (hh, mi, ss) = (r.below(24), r.below(60), r.below(60));
+    let mut s = if ext_d { format!("{:04}-{:02}-{:02}T", y, m, d) } else { format!("{:04}{:02}{:02}T", y, m, d) };
+    if ext_t {
+        s.push_str(&format!("{:02}:{:02}:{:02}", hh, mi, ss));
+    } else {
+        s.push_str(&format!("{:02}{:02}{:02}", hh, mi, ss));
+    }
+    if r.chance(1, 3) {
+        s.push(if r.chance(1, 2) { '.' } else { ',' });
+        for _ in 0..(1 + r.below(12)) {
+            s.push((b'0' + r.below(10) as u8) as char);
+        }
+    }
+    if r.chance(1, 2) {
+        s.push('Z');
+    } else {
+        s.push(if r.chance(1, 2) { '+' } else { '-' });
+        let oh = if r.chance(1, 6) { r.below(30) } else { r.below(15) };
+        let om = if r.chance(1, 8) { r.below(100) } else { *r.pick(&[0usize, 15, 30, 45, 59]) };
+        if r.chance(1, 2) {
+            s.push_str(&format!("{:02}:{:02}", oh, om));
+        } else {
+            s.push_str(&format!("{:02}{:02}", oh, om));
+        }
+    }
+    if r.chance(1, 2) {
+        let mut cs: Vec<char> = s.chars().collect();
+        let alphabet: Vec<char> = "0123456789-:TZ+.,tz \u{0662}\u{ff12}\u{0967}9".chars().collect();
+        let pos = r.below(cs.len().max(1));
+        match r.below(5) {
+            0 => cs[pos] = *r.pick(&alphabet),
+            1 => {
+                cs.remove(pos);
+            }
+            2 => cs.insert(pos, *r.pick(&alphabet)),
+            3 => {
+                let c = cs[pos];
+                cs.insert(pos, c);
+            }
+            _ => {
+                // bump one digit
+                if cs[pos].is_ascii_digit() {
+                    cs[pos] = (b'0' + ((cs[pos] as u8 - b'0' + 1 + r.below(8) as u8) % 10)) as char;
+                }
+            }
+        }
+        s = cs.into_iter().collect();
+    }
+    s
+}
+
+fn rand_name(r: &mut Rng) -> String {
+    match r.below(6) {
+        0 => String::new(),
+        1 => "us-east-1".into(),
+        2 => "\u{e9}t\u{e9}".into(),
+        3 => "s3".into(),
+        _ => {
+            let n = r.below(20);
+            (0..n).map(|_| rand_utf8_char(r)).collect()
+        }
+    }
+}
+
 pub fn generate(family: &str, seed: u64, n: usize, w: &mut impl Write) -> usize {
     let mut r = Rng::new(seed ^ 0x5eed);
     let mut cnt = 0;
@@ -112,6 +206,37 @@ pub fn generate(family: &str, seed: u64, n: usize, w: &mut impl Write) -> usize 
             "path" => json!({"op": "path", "p": jbytes(rand_path(&mut r).as_bytes()), "s3": r.chance(1, 2)}),
             "query" => json!({"op": "query", "q": jbytes(rand_query(&mut r).as_bytes())}),
             "elem" => json!({"op": "elem", "el": jbytes(rand_piece(&mut r, &[]).as_bytes()), "plus": r.chance(1, 2)}),
+            "ts" => json!({"op": "ts", "s": jbytes(rand_ts(&mut r).as_bytes())}),
+            "hval" => {
+                let n = r.below(14);
+                let v: Vec<u8> = (0..n)
+                    .map(|_| match r.below(8) {
+                        0..=2 => b' ',
+                        3 => b'\t',
+                        4 => b'a',
+                        5 => b',',
+                        6 => 0x80 + r.below(0x80) as u8,
+                        _ => 0x21 + r.below(0x5e) as u8,
+                    })
+                    .collect();
+                json!({"op": "hval", "v": jbytes(&v)})
+            }
+            "key" => {
+                let n = if r.chance(1, 3) { *r.pick(&[0usize, 1, 39, 40, 41, 44, 60, 61]) } else { r.below(50) };
+                let mut sec = String::new();
+                while sec.len() < n {
+                    let c = if r.chance(1, 10) { rand_utf8_char(&mut r) } else { ((0x21 + r.below(0x5e)) as u8 as char).to_string() };
+                    if sec.len() + c.len() <= n {
+                        sec.push_str(&c);
+                    } else {
+                        sec.push('x');
+                    }
+                }
+                let (y, m, d) = rand_date(&mut r);
+                let cap = if r.chance(2, 3) { 44 } else { *r.pick(&[0i64, 3, 4, 5, 8, 44, 64, 100]) };
+                json!({"op": "key", "secret": jbytes(sec.as_bytes()), "cap": cap, "date": [y, m, d],
+                       "region": jbytes(rand_name(&mut r).as_bytes()), "service": jbytes(rand_name(&mut r).as_bytes())})
+            }
             _ => {
                 eprintln!("unknown family {family}");
                 std::process::exit(2);
